@@ -107,6 +107,11 @@ fn main() {
             println!("{}", hostile::run_hostile_dir(&cfgs, &PathBuf::from(get("out", "work/hostiledir"))));
             0
         }
+        "rootops" => {
+            let cfgs: Vec<String> = get("cfgs", "mem").split(';').map(|s| s.to_string()).collect();
+            println!("{}", hostile::run_rootops(&cfgs, &PathBuf::from(get("out", "work/rootops"))));
+            0
+        }
         "emb" => {
             println!("{}", embrun::run(&PathBuf::from(get("out", "work/emb"))));
             0
